@@ -620,6 +620,14 @@ func (u *Unit) exprCmp(e ast.Expr) (Cmp, bool) {
 	info := u.Info()
 	be, ok := ast.Unparen(e).(*ast.BinaryExpr)
 	if !ok {
+		// a boolean local that names a comparison (`v4 := p.Protocol() == 4; if isBinary && v4`)
+		if id, isI := ast.Unparen(e).(*ast.Ident); isI {
+			if d, k := u.SingleDef(id); k {
+				be, ok = ast.Unparen(d).(*ast.BinaryExpr)
+			}
+		}
+	}
+	if !ok {
 		return Cmp{}, false
 	}
 	switch be.Op {
